@@ -145,6 +145,39 @@ type ctx struct {
 	o    *vrt.Obs
 	seen map[string]int
 	desc string
+	// kept: the last few messages built or parsed, with their serialisation at that time. A message
+	// must not change because OTHER messages are built, serialised or parsed afterwards (shared
+	// buffers, cached encoders): re-serialised before every new message.
+	kept []keptMsg
+}
+
+type keptMsg struct {
+	m    *fbb.Message
+	wire []byte
+	desc string
+}
+
+func (c *ctx) recheckKept() {
+	for _, k := range c.kept {
+		now, err := k.m.Bytes()
+		c.o.Count("earlier_messages_rechecked", 1)
+		if err != nil || !bytes.Equal(now, k.wire) {
+			d := c.desc
+			c.desc = k.desc
+			c.violate("earlier-message-changed", "a message serialises differently after other messages were built/parsed (first difference at byte %d, err=%v)", firstDiff(now, k.wire), err)
+			c.desc = d
+		}
+	}
+}
+
+func (c *ctx) keep(m *fbb.Message, wire []byte, desc string) {
+	if len(wire) > 1<<15 {
+		return
+	}
+	c.kept = append(c.kept, keptMsg{m, append([]byte(nil), wire...), desc})
+	if len(c.kept) > 3 {
+		c.kept = c.kept[1:]
+	}
 }
 
 // violate records at most two instances per key and case (the classes matter, not the count).
@@ -362,6 +395,8 @@ func checkAPI(c *ctx, r *rand.Rand, m *fbb.Message, md *model, kinds []string) {
 	}
 	c.desc = fmt.Sprintf("mid=%s len=%d head=%q", md.mid, len(b1), clip(string(b1[:min(len(b1), 160)])))
 	o.Count("bytes_serialised", int64(len(b1)))
+	c.recheckKept()
+	c.keep(m, b1, c.desc)
 	if b1again, _ := m.Bytes(); !bytes.Equal(b1, b1again) {
 		c.violate("serialise-unstable", "two serialisations of the same message differ")
 	}
